@@ -55,23 +55,23 @@ class AsyncBrkWorld:
         self.log = []  # breaker calls made during the current step
 
         class Spy(CircuitBreaker):
-            def allow(self):
-                d = CircuitBreaker.allow(self)
+            def allow(self, *a, **kw):
+                d = CircuitBreaker.allow(self, *a, **kw)
                 world.log.append(("allow", d.allowed, d.state.value, d.event))
                 return d
 
-            def record_success(self):
-                r = CircuitBreaker.record_success(self)
+            def record_success(self, *a, **kw):
+                r = CircuitBreaker.record_success(self, *a, **kw)
                 world.log.append(("success", None, r))
                 return r
 
-            def record_failure(self, klass):
-                r = CircuitBreaker.record_failure(self, klass)
+            def record_failure(self, klass, *a, **kw):
+                r = CircuitBreaker.record_failure(self, klass, *a, **kw)
                 world.log.append(("failure", LK.get(klass), r))
                 return r
 
-            def record_cancel(self):
-                r = CircuitBreaker.record_cancel(self)
+            def record_cancel(self, *a, **kw):
+                r = CircuitBreaker.record_cancel(self, *a, **kw)
                 world.log.append(("cancel", None, r))
                 return r
 
